@@ -43,6 +43,33 @@ func (s *Store) snapshot(light bool) string {
 	return b.String()
 }
 
+// SnapshotInputs dumps what the caller supplied and never replaces by itself:
+// every path's schema, functions and validators, the decoder context and the
+// package-level variables - not the files and the collected target/origin sets
+// the store republishes. It is taken when the store is built (and after a
+// schema swap), before any library code has run, so that changes made by the
+// indexer's own calls (CollectReferenceTargets/Origins) are seen as well.
+func (s *Store) SnapshotInputs() string {
+	var b strings.Builder
+	o := deep.Options{Identity: true, Funcs: true, MaxDepth: 400}
+	for _, p := range s.Paths {
+		fmt.Fprintf(&b, "PATH %d SCHEMA ", p.Index)
+		b.WriteString(deep.Dump(p.Schema, o))
+		b.WriteString("\nFUNCS ")
+		b.WriteString(deep.Dump(p.Funcs, o))
+		b.WriteByte('\n')
+	}
+	b.WriteString("DECCTX ")
+	b.WriteString(deep.Dump(&s.DecCtx, o))
+	b.WriteByte('\n')
+	for _, v := range simrt.PkgVars() {
+		b.WriteString("VAR " + v.Name + " ")
+		b.WriteString(deep.Dump(v.Ptr, o))
+		b.WriteByte('\n')
+	}
+	return b.String()
+}
+
 // SnapDiff describes the first difference between two snapshots: the nearest
 // enclosing field name and some context.
 func SnapDiff(a, b string) (field, context string) {
